@@ -20,6 +20,7 @@ import (
 	"github.com/bokysan/socketace/v2/verifharness/pki"
 	"github.com/gorilla/websocket"
 	"github.com/pkg/errors"
+	"github.com/xtaci/kcp-go/v5"
 )
 
 // Options describes one client/server world.
@@ -42,6 +43,10 @@ type Options struct {
 	PKI     *pki.PKI
 	Relay   bool // capture every byte crossing the carrier (C04)
 	DnsPath DnsPath
+	// RealLoop selects the real accept loop instead of the harness' concurrent one:
+	// "socket" (SocketServer.acceptConnection via VerifServe), "packet" (PacketServer.StartupPacket
+	// with the in-memory listener injected), "dns" (DnsServer's loop over the real ServerDnsListener).
+	RealLoop string
 	// OnDial is called for every physical carrier connection with the connection objects whose
 	// read plans govern the client's and the server's reads respectively.
 	OnDial func(clientReads, serverReads *netsim.MemConn)
@@ -162,7 +167,23 @@ func New(o Options) (*World, error) {
 			}
 			l = tls.NewListener(l, tc)
 		}
-		go w.serveStream(l, o.TLS, filtered)
+		switch o.RealLoop {
+		case "socket":
+			ss := server.NewSocketServer()
+			ss.ServerConfig = w.SrvCfg
+			go ss.VerifServe(l, filtered, o.TLS)
+		case "packet":
+			ps := server.NewPacketServer()
+			ps.ServerConfig = w.SrvCfg
+			ps.Channels = o.AllowList
+			ps.PacketConnection = dummyPacketConn{}
+			ps.Address = addr.MustParseAddress("udp://127.0.0.1:1")
+			if err := ps.StartupPacket(w.SrvChans, func(kcp.BlockCrypt, net.PacketConn) (net.Listener, error) { return l, nil }); err != nil {
+				return nil, err
+			}
+		default:
+			go w.serveStream(l, o.TLS, filtered)
+		}
 	case "ws":
 		w.Listener = netsim.NewListener("server:80")
 		w.Listener.OnDial = w.onDial
@@ -244,6 +265,35 @@ func (w *World) serveStream(l net.Listener, secure bool, chans server.Channels) 
 			}
 		}()
 	}
+}
+
+type dummyPacketConn struct{ net.PacketConn }
+
+// NewClient returns an additional, independent client (its own Upstreams and front-end)
+// connecting to the same server endpoint.
+func (w *World) NewClient() *upstream.Upstreams {
+	f := &Front{W: w, Kind: w.Opt.Carrier, TLS: w.Opt.TLS, Host: w.Opt.Host}
+	return &upstream.Upstreams{Data: []upstream.Upstream{f}, MustSecure: w.Opt.MustSecure}
+}
+
+// OpenAppVia is OpenApp through the given client.
+func (w *World) OpenAppVia(ups *upstream.Upstreams, channel string, expect func(off int) byte) *Endpoint {
+	a, b := netsim.Pipe(netsim.Addr{Net: "mem", Str: "app"}, netsim.Addr{Net: "mem", Str: "listener-" + channel}, w.Opt.AppBuf)
+	w.Track(b, "listener-side of app connection")
+	w.mu.Lock()
+	idx := len(w.Apps)
+	ep := NewEndpoint(a, fmt.Sprintf("app[%d:%s]", idx, channel), expect, w.Opt.Keep)
+	w.Apps = append(w.Apps, ep)
+	w.mu.Unlock()
+	l := &listener.AbstractListener{Upstreams: ups, Config: certGetter{&w.CliCfg}}
+	l.Name = channel
+	go func() {
+		l.HandleConnection(b)
+		w.mu.Lock()
+		w.Handled++
+		w.mu.Unlock()
+	}()
+	return ep
 }
 
 // CarrierClientEnd returns the client end of the n-th physical carrier connection (stream
